@@ -75,3 +75,13 @@ func init() {
 	addStages("C06", "exploration", note, storm)
 	addStages("C01", "exploration", note, storm)
 }
+
+func init() {
+	wire := Stage{Engine: "clusterrun", Mode: "wire", Race: true, BatchesQ: 6, BatchesT: 16, Par: 6, TimeoutQ: 900, TimeoutT: 5400}
+	note := []string{
+		"E2 wire stage: real NodeHosts on the real file system over dragonboat's own TCP transport on loopback; byte-level proxies flip bits and cut connections inside frames, snapshot chunk streams lose / repeat chunks and get payload bytes changed before framing; snapshot images carry a ballast of several blocks and external files derived from the data, commands carry derived padding - all verified inside the user state machine (altered data must never reach it); plus the history oracle and the comparison of every replica with the replay of the committed log. Hosts stop gracefully in this stage (no power loss on the real file system)",
+	}
+	for _, p := range []string{"C13", "C14", "C15", "C08", "C01"} {
+		addStages(p, "exploration", note, wire)
+	}
+}
